@@ -623,14 +623,17 @@ class Node:
         if not attr_node.is_mapping():
             return
 
+        if value_attribute is None and not all(
+                isinstance(item_value, yaml.MappingNode)
+                for _, item_value in attr_node.yaml_node.value):
+            return      # invalid format
+
         start_mark = attr_node.yaml_node.start_mark
         end_mark = attr_node.yaml_node.end_mark
         object_list = []
         for item_key, item_value in attr_node.yaml_node.value:
             item_value_node = Node(item_value)
             if not item_value_node.is_mapping():
-                if value_attribute is None:
-                    return      # invalid format
                 ynode = item_value_node.yaml_node
                 item_value_node.make_mapping()
                 item_value_node.yaml_node.start_mark = item_key.start_mark
